@@ -97,3 +97,11 @@ Lemma st_eqb_eq a b : st_eqb a b = true <-> a = b.
 Proof. unfold st_eqb. split; [|intros ->; apply Z.eqb_refl]. destruct a, b; cbn; intros H; try reflexivity; discriminate. Qed.
 Lemma st_eqb_neq a b : st_eqb a b = false <-> a <> b.
 Proof. split; intros H; [intros E; apply st_eqb_eq in E; congruence|]. destruct (st_eqb a b) eqn:E; [apply st_eqb_eq in E; contradiction|reflexivity]. Qed.
+
+(** naming a [let] of the model instead of expanding it *)
+Lemma wp_let {A B} (e : A) (f : A -> M B) s ev Q : (forall x, x = e -> wp (f x) s ev Q) -> wp (let x := e in f x) s ev Q.
+Proof. intros H. cbv zeta. apply H. reflexivity. Qed.
+Ltac wp_let x H :=
+  lazymatch goal with
+  | |- wp (let y := _ in _) _ _ _ => apply wp_let; intros x H; cbv beta
+  end.
